@@ -1,1 +1,9 @@
-From Morph Require Import Base.UStr.
+(* Recorded finding of C11: the readers choose one dtype per column, so the rendering of a value depends on the other rows
+   (modelled in Data.coerce_rows): an integer next to a NULL is delivered as the float 10.0. *)
+From Coq Require Import String.
+From Morph Require Import Base.UStr Model.Terms Model.Data.
+Local Open Scope Z_scope.
+Lemma typed_rows_additive_refuted :
+  map (map (fun kc => py_str (snd kc))) (coerce_rows [u "c"] [[VInt 10]; [VNull]]) = [[u "10.0"]; [u "nan"]]
+  /\ map (map (fun kc => py_str (snd kc))) (coerce_rows [u "c"] [[VInt 10]]) = [[u "10"]].
+Proof. split; vm_compute; reflexivity. Qed.
